@@ -516,7 +516,7 @@ def run(ctx):
         ctx.set_exhaustive('small-scope', True)
         evaluate_cases(ctx, 'small-scope', triples)
         triples = []
-        n_seq = ctx.budget(300, 3000)
+        n_seq = ctx.budget(300, 2400)
         for k in range(n_seq):
             n = rng.choice([0, 1, 2, 3, 4, 5, 6, 8, 10, 12]) if k % 4 else rng.randrange(13)
             force = {'dup': True} if k % 25 == 24 else None
@@ -531,7 +531,7 @@ def run(ctx):
         # ---- worker processes, completion order permuted by sleeps; every scenario is also run
         #      sequentially and the assignments uid -> fitness are compared
         cross, triples = [], []
-        for nj, count in ((2, ctx.budget(20, 200)), (4, ctx.budget(14, 160))):
+        for nj, count in ((2, ctx.budget(20, 160)), (4, ctx.budget(14, 120))):
             for k in range(count):
                 n = rng.choice([2, 3, 5, 8, 12])
                 tk = ['none', 'generous', 'generous_opt', 'expired', 'expired_opt'][k % 5]
